@@ -119,11 +119,20 @@ class World:
             return {}
         rt, rf, rs = root
         out = {}
-        if "*" not in rs:
-            out[f"{rt}:{rs}"] = root
-            return out
         parent_fields = {k: root_fields[k] for k in keys[:idx]}
         parent = self._typed(parent_fields) if parent_fields else None
+
+        def parent_exists():
+            # constants exist under an existing parent only (no parent source / no parent level: always)
+            if src.parent is None or parent is None:
+                return True
+            pform = Form(parent[0], parent[1], parent[2])
+            return bool(self.find_source(src.parent, pform))
+
+        if "*" not in rs:
+            if parent_exists():
+                out[f"{rt}:{rs}"] = root
+            return out
         if parent is not None and "*" in parent[2]:
             if src.parent is None:
                 raise refsearch.RefSpilException("parent is a search but no parent source")
@@ -138,7 +147,9 @@ class World:
                         if e:
                             out[f"{e[0]}:{e[2]}"] = e
             return out
-        base = rf if parent is None else rf
+        if not parent_exists():
+            return out
+        base = rf
         for v in src.values:
             e = self._typed(dict(base, **{src.key: v}))
             if e:
